@@ -64,6 +64,7 @@ pub fn rust_ty(recvs: &[Recv], ty: &Ty) -> String {
         Ty::Opt(t) => format!("Option<{}>", rust_ty(recvs, t)),
         Ty::Map(t) => format!("::std::collections::HashMap<String, {}>", rust_ty(recvs, t)),
         Ty::PathList => "::darling::util::PathList".into(),
+        Ty::Bytes => "Vec<u8>".into(),
         Ty::Recv(id) => recvs[*id].name(),
         Ty::BoxRecv(id) => format!("Box<{}>", recvs[*id].name()),
     }
@@ -79,6 +80,7 @@ pub fn zero(recvs: &[Recv], ty: &Ty) -> Value {
         Ty::Opt(_) => Value::Null,
         Ty::Map(_) => json!({"map": {}}),
         Ty::PathList => json!({"paths": []}),
+        Ty::Bytes => json!([]),
         Ty::Recv(id) | Ty::BoxRecv(id) => default_value(recvs, &recvs[*id]),
     }
 }
@@ -98,6 +100,7 @@ pub fn sentinel(recvs: &[Recv], ty: &Ty, tag: Tag, k: usize) -> Value {
             json!({"map": Value::Object(m)})
         }
         Ty::PathList => json!({"paths": []}),
+        Ty::Bytes => json!([tag.base_u8() as usize + k % 10, 1]),
         Ty::Recv(id) | Ty::BoxRecv(id) => default_value(recvs, &recvs[*id]),
     }
 }
@@ -111,6 +114,7 @@ pub fn sentinel_expr(recvs: &[Recv], ty: &Ty, tag: Tag, k: usize) -> String {
         Ty::Sc(Sc::Char) => format!("'{}'", tag.ch()),
         Ty::Opt(t) => format!("Some({})", sentinel_expr(recvs, t, tag, k)),
         Ty::Map(t) => format!("{{ let mut m = ::std::collections::HashMap::new(); m.insert(String::from(\"{}#{k}\"), {}); m }}", tag.text(), sentinel_expr(recvs, t, tag, k)),
+        Ty::Bytes => format!("vec![{}u8, 1u8]", tag.base_u8() as usize + k % 10),
         Ty::PathList | Ty::Recv(_) => "::core::default::Default::default()".into(),
         Ty::BoxRecv(_) => "Box::new(::core::default::Default::default())".into(),
     }
